@@ -47,6 +47,21 @@ aws_array_list_comparator_fn *g_qs_cmp;
 
 size_t g_mm;        /* memmove: offset (inside the moved range) of the witness byte */
 
+/* ---- arithmetic lemmas.  SAT cannot derive distributivity / monotonicity of x*ISZ at 64 bits in reasonable time
+ * when ISZ is not a power of two.  Each AL_LEM_* below is a formula over size_t scalars that is VALID FOR ALL VALUES
+ * (a modular identity, or an implication whose hypothesis is part of the list invariant); each is proved in a unit
+ * of its own (units lemma_*_s<size>, pure arithmetic, no memory).  The contract of the function that needs it states
+ * the instance as `requires(g_lemma == AL_FN_x ==> lemma)`: a valid formula restricts no input, it only hands the
+ * fact to the solver; the ghost guard keeps it out of the way where the contract replaces a call. */
+int g_lemma;
+enum { AL_FN_NONE = 0, AL_FN_ERASE, AL_FN_POP_FRONT_N, AL_FN_SWAP, AL_FN_SET_AT, AL_FN_PUSH_FRONT, AL_FN_SLOT };
+#define AL_LEN_MAX (SIZE_MAX / ISZ)
+/* erase(i) of len elements: head part + erased slot + moved tail = everything; the parts do not exceed the whole */
+#define AL_LEM_ERASE(i, len)                                                                                           \
+    ((i) < (len) && (len) <= AL_LEN_MAX ==>                                                                            \
+     (i) * ISZ + ISZ + (((len) - (i)) - 1) * ISZ == (len) * ISZ && (i) * ISZ + ISZ <= (len) * ISZ &&                   \
+         (i) * ISZ < (i) * ISZ + ISZ && (((len) - (i)) - 1) * ISZ <= (len) * ISZ && ((len) - 1) * ISZ + ISZ == (len) * ISZ)
+
 /* ---- libc memmove: ASSUMED contract (C standard: the n bytes at src are copied to dest as if through a temporary
  * buffer, nothing else is written, dest is returned), stated for ONE arbitrary byte g_mm of the moved range + frame.
  * Needed because CBMC 6.11's built-in memmove model does not terminate (array post-processing) when source and
@@ -63,7 +78,7 @@ __CPROVER_ensures(g_on ==> ((const uint8_t *)dest)[AL_CLAMP(g_mm, n)] == __CPROV
 ;
 
 /* DFCC starts every harness with NONDET globals: reset all ghost switches, then switch on what the harness needs */
-#define AL_GHOST_RESET() do { GHOST_RESET_COMMON(); g_zero_on = false; g_rz = 0; g_rsize = 0; g_qs_calls = 0; } while (0)
+#define AL_GHOST_RESET() do { GHOST_RESET_COMMON(); g_zero_on = false; g_rz = 0; g_rsize = 0; g_qs_calls = 0; g_lemma = AL_FN_NONE; } while (0)
 
 /* ---- the thread-local error slot of error.c, seen through the ghost g_last_error (ASSUMED model) ---- */
 int aws_last_error(void)
@@ -339,6 +354,7 @@ AWS_STATIC_IMPL int aws_array_list_erase(struct aws_array_list *AWS_RESTRICT lis
 AL_REQ_OK(list)
 AL_REQ_WITNESS(list)
 __CPROVER_requires(g_on ==> g_mm == g_k - (index * ISZ + ISZ)) /* ghost only */
+__CPROVER_requires(g_lemma == AL_FN_ERASE ==> AL_LEM_ERASE(index, list->length))
 __CPROVER_assigns(index < list->length : list->length)
 __CPROVER_assigns(index == 0 && list->length > 1 : __CPROVER_object_upto(AL_BYTES(list), (list->length - 1) * ISZ))
 __CPROVER_assigns(index > 0 && index < list->length : __CPROVER_object_upto(AL_BYTES(list) + (list->length - 1) * ISZ, ISZ))
